@@ -36,8 +36,16 @@ impl Scenario for C12 {
             if t.chan_ids.len() >= 2 && cs.choose("foreign", 2) == 1 {
                 let kind = gen_ack(&mut cs);
                 let kind = if kind == AckKind::None { AckKind::Ack } else { kind };
-                t.ops.push((0, Op::Get { queue: "q.foreign".into(), no_ack: false, then: AckKind::None, via_queue: false, via_get: false }));
-                t.ops.push((0, Op::ForeignAck { kind, other_slot: 1 }));
+                // a consumer on the other channel, so that the foreign ack can also go through Consumer::ack & co
+                t.ops.push((1, Op::Consume { queue: "q.foreign-consumer".into(), no_local: false, no_ack: false, exclusive: false, args: 0, via_queue: false }));
+                let cslot = t.ops.iter().filter(|(_, o)| matches!(o, Op::Consume { .. })).count() - 1;
+                t.ops.push((0, Op::GetKeep { queue: "q.foreign".into() }));
+                if cs.choose("foreign_via_consumer", 2) == 1 {
+                    t.ops.push((0, Op::ForeignAckViaConsumer { kind, consumer_slot: cslot }));
+                } else {
+                    t.ops.push((0, Op::ForeignAck { kind, other_slot: 1 }));
+                }
+                t.ops.push((1, Op::Cancel { slot: cslot }));
                 foreign += 1;
             }
         }
@@ -57,12 +65,12 @@ impl Scenario for C12 {
         // foreign ack must have panicked (caught in the client thread) and sent nothing: the
         // expectation table has no frame for it, so a frame would show as "method-extra"
         for o in &res.hist.ops {
-            if let Op::ForeignAck { .. } = &o.op {
+            if let Op::ForeignAck { .. } | Op::ForeignAckViaConsumer { .. } = &o.op {
                 match &o.result {
                     OpResult::Panicked(_) => rep.count("c12.foreign_ack_panicked", 1),
                     OpResult::Skipped => {}
                     other => {
-                        rep.violate("foreign-ack", "no-panic", format!("acknowledging through a channel with a different id returned {:?} instead of panicking", other));
+                        rep.violate("foreign-ack", "no-panic", format!("{} returned {:?} instead of panicking", crate::expect::short_op(&o.op), other));
                         return rep;
                     }
                 }
